@@ -61,6 +61,7 @@ static inline ptrdiff_t creader_readline(struct creader *reader,
     }
     else
     {
+        reader->cursor = it;
         return it - *token;
     }
 
